@@ -33,6 +33,7 @@ SELF = {'self': 'obj:ExcelInPython'}
 
 def registry():
     reg = base_registry(('ExcelInPython', 'EmptyCell'))
+    reg.axioms += [cw_axioms, sumsel_axioms, lc_axioms]
     reg.spec('is_err', is_err_z, is_err_py, 'one of the seven Excel error values (as the property lists them)')
     reg.spec('substr', substr_z, lambda s, a, n: s[a:a + n] if n > 0 else '', 'n characters of s from 0-based offset a (SMT-LIB str.substr)')
     try:
@@ -56,6 +57,9 @@ def registry():
     condfolds(reg)
     condfolds2(reg)
     condfolds3(reg)
+    dates(reg)
+    dates2(reg)
+    dates3(reg)
     return reg
 
 
@@ -519,16 +523,21 @@ _LC = {}
 
 
 def _lc_funs():
-    """leafcount(x) / leafcount of the first k elements of x, as mutually recursive z3 functions."""
+    """leafcount(x) / leafcount of the first k elements of x (uninterpreted, unfolded by triggered axioms)"""
     if not _LC:
         z3, S = z(), T()
-        lc = z3.RecFunction('leafcount', S.V, S.I)
-        lcp = z3.RecFunction('leafcount_prefix', S.V, S.I, S.I)
-        x, k = z3.Const('lc_x', S.V), z3.Int('lc_k')
-        z3.RecAddDefinition(lc, [x], z3.If(S.is_('List', x), lcp(x, S.ln(x)), z3.IntVal(1)))
-        z3.RecAddDefinition(lcp, [x, k], z3.If(k <= 0, z3.IntVal(0), lcp(x, k - 1) + lc(S.at(x, k - 1))))
-        _LC['lc'], _LC['lcp'] = lc, lcp
+        _LC['lc'] = z3.Function('leafcount', S.V, S.I)
+        _LC['lcp'] = z3.Function('leafcount_prefix', S.V, S.I, S.I)
     return _LC['lc'], _LC['lcp']
+
+
+def lc_axioms():
+    z3, S = z(), T()
+    lc, lcp = _lc_funs()
+    x, k = z3.Const('lc_x', S.V), z3.Int('lc_k')
+    return [z3.ForAll([x], lc(x) == z3.If(S.is_('List', x), lcp(x, S.ln(x)), z3.IntVal(1)), patterns=[lc(x)]),
+            z3.ForAll([x, k], z3.Implies(k <= 0, lcp(x, k) == 0), patterns=[lcp(x, k)]),
+            z3.ForAll([x, k], z3.Implies(k > 0, lcp(x, k) == lcp(x, k - 1) + lc(S.at(x, k - 1))), patterns=[lcp(x, k)])]
 
 
 def leafcount_z(x):
@@ -620,13 +629,18 @@ def _numval(x):
 def sumsel_fn():
     if 'sumsel' not in _RF:
         z3, S = z(), T()
-        f = z3.RecFunction('sumsel', S.V, S.V, S.V, S.I, S.R)
-        r, s_, c, k = z3.Const('ss_r', S.V), z3.Const('ss_s', S.V), z3.Const('ss_c', S.V), z3.Int('ss_k')
-        term = z3.If(z3.And(k - 1 < S.ln(s_), _crit_true(c, S.at(r, k - 1)), S.is_num(S.at(s_, k - 1))),
-                     S.real_of(S.at(s_, k - 1)), z3.RealVal(0))
-        z3.RecAddDefinition(f, [r, s_, c, k], z3.If(k <= 0, z3.RealVal(0), f(r, s_, c, k - 1) + term))
-        _RF['sumsel'] = f
+        _RF['sumsel'] = z3.Function('sumsel', S.V, S.V, S.V, S.I, S.R)
     return _RF['sumsel']
+
+
+def sumsel_axioms():
+    z3, S = z(), T()
+    f = sumsel_fn()
+    r, s_, c, k = z3.Const('ss_r', S.V), z3.Const('ss_s', S.V), z3.Const('ss_c', S.V), z3.Int('ss_k')
+    term = z3.If(z3.And(k - 1 < S.ln(s_), _crit_true(c, S.at(r, k - 1)), S.is_num(S.at(s_, k - 1))),
+                 S.real_of(S.at(s_, k - 1)), z3.RealVal(0))
+    return [z3.ForAll([r, s_, c, k], z3.Implies(k <= 0, f(r, s_, c, k) == 0), patterns=[f(r, s_, c, k)]),
+            z3.ForAll([r, s_, c, k], z3.Implies(k > 0, f(r, s_, c, k) == f(r, s_, c, k - 1) + term), patterns=[f(r, s_, c, k)])]
 
 
 def sumsel_z(r, s_, c, k):
@@ -774,3 +788,180 @@ def total1_z(f):
     z3, S = z(), T()
     x = z3.Const('tot_x', S.V)
     return z3.ForAll([x], z3.Not(S.app1_raises(_toV(f), x)), patterns=[S.app1_raises(_toV(f), x)])
+
+
+# ------------------------------------------------------------------------------------------------ C15
+def fom_z(idx):
+    """ordinal of the first day of the month with index idx = 12*year + (month-1)"""
+    from pv.symspec import to_int
+    z3, S = z(), T()
+    idx = to_int(idx)
+    y = idx / 12
+    m = idx % 12 + 1
+    return S.ymd_to_ord(y, m, z3.IntVal(1))
+
+
+def fom_py(idx):
+    import datetime
+    return datetime.date(idx // 12, idx % 12 + 1, 1).toordinal()
+
+
+def dim_idx_z(idx):
+    from pv.symspec import to_int
+    S = T()
+    idx = to_int(idx)
+    return S.dim(idx / 12, idx % 12 + 1)
+
+
+def dim_idx_py(idx):
+    import calendar
+    return calendar.monthrange(idx // 12, idx % 12 + 1)[1]
+
+
+def _dt_field(name):
+    def f(x):
+        S = T()
+        return getattr(S.V, name)(_toV(x))
+    return f
+
+
+def mi_z(o):
+    """month index 12*year + (month-1) of an ordinal (through the calendar decomposition functions)"""
+    from pv.symspec import to_int
+    S = T()
+    o = to_int(o)
+    return S.year_of(o) * 12 + S.month_of(o) - 1
+
+
+def dom_z(o):
+    from pv.symspec import to_int
+    return T().day_of(to_int(o))
+
+
+def dates(reg):
+    import datetime as _dt
+    reg.spec('fom', fom_z, fom_py, fom_z.__doc__)
+    reg.spec('dim_idx', dim_idx_z, dim_idx_py, 'days in the month with index idx')
+    reg.spec('tord', _dt_field('tord'), lambda x: x.toordinal(), 'proleptic Gregorian ordinal of a date-time')
+    reg.spec('tsec', _dt_field('tsec'), lambda x: x.hour * 3600 + x.minute * 60 + x.second, 'second of day')
+    reg.spec('mi', mi_z,
+             lambda o: _dt.date.fromordinal(o).year * 12 + _dt.date.fromordinal(o).month - 1, '12*year + month-1 of an ordinal')
+    reg.spec('dom', dom_z,
+             lambda o: _dt.date.fromordinal(o).day, 'day of month of an ordinal')
+    yy = 'ite(I(year) <= 1899, I(year) + 1900, I(year))'
+    idx = f'({yy} * 12 + I(month) - 1)'
+    reg.add(Contract(
+        '_date', 'runtime:_date', {**SELF, 'year': 'int', 'month': 'int', 'day': 'int'}, self_class='ExcelInPython',
+        requires=[f'implies(0 <= I(year) and I(year) <= 9999, 12 <= {idx} and {idx} <= 9999 * 12 + 11 and '
+                  f'1 <= fom({idx}) + I(day) - 1 and fom({idx}) + I(day) - 1 <= 3652059)'],
+        ensures={
+            'out_of_window': 'implies(I(year) < 0 or I(year) > 9999, result == "#NUM!")',
+            'calendar': f'implies(0 <= I(year) and I(year) <= 9999, is_datetime(result) and tsec(result) == 0 and '
+                        f'tord(result) == fom({idx}) + I(day) - 1)',
+        },
+        notes='DATE(y, m, d) is 1 January of year y (0..1899 count from 1900) plus (m-1) months plus (d-1) days, for '
+              'every integer month and day whose result stays inside years 1..9999'))
+    reg.add(Contract(
+        '_eomonth', 'runtime:_eomonth', {**SELF, 'start_date': 'datetime', 'months': 'int'}, self_class='ExcelInPython',
+        requires=['12 <= mi(tord(start_date)) + I(months)',
+                  'mi(tord(start_date)) + I(months) <= 9999 * 12 + 11'],
+        ensures={'last_day_of_target_month': 'is_datetime(result) and tsec(result) == 0 and '
+                                             'tord(result) == fom(mi(tord(start_date)) + I(months)) + '
+                                             'dim_idx(mi(tord(start_date)) + I(months)) - 1'},
+        notes='EOMONTH is the last day of the month `months` after the month of the start date'))
+    reg.add(Contract(
+        '_edate', 'runtime:_edate', {**SELF, 'start_date': 'datetime', 'months': 'int'}, self_class='ExcelInPython',
+        requires=['12 <= mi(tord(start_date)) + I(months)',
+                  'mi(tord(start_date)) + I(months) <= 9999 * 12 + 11'],
+        ensures={'same_day_clamped': 'is_datetime(result) and tsec(result) == tsec(start_date) and '
+                                     'tord(result) == fom(mi(tord(start_date)) + I(months)) + '
+                                     'min(dom(tord(start_date)), dim_idx(mi(tord(start_date)) + I(months))) - 1'},
+        notes='EDATE moves by whole months and clamps the day to the last day of the target month'))
+
+
+def dates2(reg):
+    reg.spec('lexle', lambda a, b, c, d: _lexle(a, b, c, d), lambda a, b, c, d: (a, b) <= (c, d),
+             '(a, b) <= (c, d) lexicographically')
+    M = '(mi(tord(date_end)) - mi(tord(date_start)) - ite(dom(tord(date_start)) > dom(tord(date_end)), 1, 0))'
+    le = 'tord(date_start) * 86400 + tsec(date_start) <= tord(date_end) * 86400 + tsec(date_end)'
+    complete = ('lexle(mi(tord(date_start)) + {k}, dom(tord(date_start)), mi(tord(date_end)), dom(tord(date_end)))')
+    clauses = {
+        'D': ('days', f'implies({le}, is_int(result) and '
+              'I(result) * 86400 <= (tord(date_end) - tord(date_start)) * 86400 + tsec(date_end) - tsec(date_start) and '
+              '(tord(date_end) - tord(date_start)) * 86400 + tsec(date_end) - tsec(date_start) < (I(result) + 1) * 86400)'),
+        'M': ('months_complete', f'implies({le}, is_int(result) and I(result) >= 0 and '
+              + complete.format(k='I(result)') + ' and not ' + complete.format(k='I(result) + 1') + ')'),
+        'Y': ('years_complete', f'implies({le}, is_int(result) and I(result) >= 0 and '
+              + complete.format(k='12 * I(result)') + ' and not ' + complete.format(k='12 * (I(result) + 1)') + ')'),
+        'YM': ('months_beyond_years', f'implies({le}, is_int(result) and 0 <= I(result) and I(result) < 12 and '
+               f'({M} - I(result)) % 12 == 0 and {M} - I(result) >= 0)'),
+    }
+    for unit, (cname, clause) in clauses.items():
+        reg.add(Contract(
+            f'_datedif/{unit}', 'runtime:_datedif', {**SELF, 'date_start': 'datetime', 'date_end': 'datetime', 'mode': 'str'},
+            self_class='ExcelInPython', requires=[f'S(mode) == "{unit}"'],
+            ensures={'reversed': f'implies(not ({le}), result == "#NUM!")', cname: clause},
+            notes='DATEDIF: D complete days, M complete months (the largest k with start + k months <= end, compared as '
+                  '(month index, day)), Y complete years (largest k with 12k months complete), YM months beyond whole '
+                  'years; #NUM! when the interval is reversed. MD and YD are outside the property.'))
+    for fn, field in (('_year', 'year_of'), ('_month', 'month_of'), ('_day', 'day_of')):
+        reg.add(Contract(fn, f'runtime:{fn}', {**SELF, 'date': 'datetime'}, self_class='ExcelInPython',
+                         ensures={'inverts_date': f'result == {field}(tord(date))'},
+                         notes='YEAR / MONTH / DAY return the field of the calendar decomposition of the date'))
+    reg.spec('year_of', lambda o: T().year_of(__import__('pv.symspec', fromlist=['to_int']).to_int(o)),
+             lambda o: __import__('datetime').date.fromordinal(o).year, 'year of an ordinal')
+    reg.spec('month_of', lambda o: T().month_of(__import__('pv.symspec', fromlist=['to_int']).to_int(o)),
+             lambda o: __import__('datetime').date.fromordinal(o).month, 'month of an ordinal')
+    reg.spec('day_of', lambda o: T().day_of(__import__('pv.symspec', fromlist=['to_int']).to_int(o)),
+             lambda o: __import__('datetime').date.fromordinal(o).day, 'day of month of an ordinal')
+
+
+def _lexle(a, b, c, d):
+    from pv.symspec import to_int
+    z3 = z()
+    a, b, c, d = to_int(a), to_int(b), to_int(c), to_int(d)
+    return z3.Or(a < c, z3.And(a == c, b <= d))
+
+
+def cw_fn():
+    """number of Monday-Friday ordinals in [a, b] (weekday of ordinal o is (o + 6) mod 7, Monday = 0)"""
+    if 'cw' not in _RF:
+        z3, S = z(), T()
+        _RF['cw'] = z3.Function('count_weekdays', S.I, S.I, S.I)
+    return _RF['cw']
+
+
+def cw_axioms():
+    z3 = z()
+    f = cw_fn()
+    a, b = z3.Int('cw_a'), z3.Int('cw_b')
+    return [z3.ForAll([a, b], z3.Implies(b < a, f(a, b) == 0), patterns=[f(a, b)]),
+            z3.ForAll([a, b], z3.Implies(b >= a, f(a, b) == f(a, b - 1) + z3.If((b + 6) % 7 < 5, 1, 0)), patterns=[f(a, b)])]
+
+
+def cw_py(a, b):
+    return sum(1 for o in range(a, b + 1) if (o + 6) % 7 < 5)
+
+
+def dates3(reg):
+    reg.spec('cw', lambda a, b: cw_fn()(*[__import__('pv.symspec', fromlist=['to_int']).to_int(x) for x in (a, b)]), cw_py,
+             cw_fn.__doc__)
+    reg.spec('dord', _dt_field('dord'), lambda x: x.toordinal(), 'ordinal of a date')
+    for name, pre, lo, hi, mult, post in (
+            ('forward', 'tord(date_start) <= tord(date_end)', 'tord(date_start)', 'tord(date_end)', '1',
+             'result == cw(tord(date_start), tord(date_end))'),
+            ('reversed', 'tord(date_start) > tord(date_end)', 'tord(date_end)', 'tord(date_start)', '0 - 1',
+             'result == 0 - cw(tord(date_end), tord(date_start))')):
+        reg.add(Contract(
+            f'_network_days/{name}', 'runtime:_network_days',
+            {**SELF, 'date_start': 'datetime', 'date_end': 'datetime', 'holidays': 'none'}, self_class='ExcelInPython',
+            requires=[pre],
+            ensures={'weekdays_of_interval': post},
+            invariants={1: {
+                'start': f'is_date(start) and is_date(end) and dord(start) <= dord(end) + 1 and dord(end) == {hi} and {lo} <= dord(start)',
+                'count': f'is_int(work_days_count) and I(work_days_count) == cw({lo}, dord(start) - 1)',
+                'mult': f'multiple == {mult}',
+                'no_holidays': 'is_list(additional_days) and len(additional_days) == 0',
+            }},
+            notes='NETWORKDAYS without holidays counts the Monday-Friday dates of the inclusive interval, negated when '
+                  'the interval is reversed; the holiday list is covered by the bounded monitor'))
